@@ -257,6 +257,8 @@ def s2_flag_iff_ran(prog):
         tb_, tt_ = tm[0]
         # Some edge
         d = tt_['dest']['l']
+        if len(body.assigns_to(d)) != 1 or not body.must_pass(0, [tb_], [jb]):
+            r.viol('S3', key + '/resource-check-bypassed', f.loc(tt_['ln']), 'a path reaches the early start without merging resource claims through try_merge (the checked Option has another source)')
         some_edge = None
         for b in range(body.n):
             t = body.term(b)
